@@ -33,6 +33,10 @@ Inductive c12case :=
    its connection object.  victim_closed: the net.Conn of connection 1 was closed at that moment although connection 1 was being
    served and nobody closed it; perip_after: the per-IP map right after. *)
 | CStale (recycled victim_closed : bool) (ip1 ip2 : N) (perip_after : list (N * Z))
+(* overlapping Close calls (directed schedule, limit lim, one address ip): B and A are open; A's Close is inside the (gated) underlying Close
+   when a second Close of A is issued; the gate opens; then C and D arrive.  mid = the counter of ip while A's Close is in flight and after the
+   second Close returned, after = once both have returned, c_served / d_rejected = what happened to C and D, final = the counter after the drain *)
+| CGate (lim : Z) (ip : N) (mid after : Z) (c_served d_rejected : bool) (final : Z)
 (* the harness could not get two agreeing readings of the observables although every goroutine was at rest: not judged *)
 | CUnstable.
 
@@ -88,6 +92,21 @@ Definition corr_ok (c : c12case) : bool :=
       | Some s => Bool.eqb (closes_own s) (negb victim) && optz_eqb (pm s ip1) (alookup after ip1) && optz_eqb (pm s ip2) (alookup after ip2)
       | None => false
       end
+  | CGate lim ip mid after c_served d_rejected final =>
+      match xrun lim xinit [XArrive ip; XArrive ip; XClose 1; XClose 1] with
+      | Some s1 =>
+          (pget (xm s1) ip =? mid) &&
+          match xrun lim s1 [XUnder 1; XUnreg 1] with
+          | Some s2 =>
+              (pget (xm s2) ip =? after) &&
+              match xrun lim s2 [XArrive ip; XArrive ip] with
+              | Some s3 => Bool.eqb c_served (3 <=? Z.of_nat (length (xw s3))) && Bool.eqb d_rejected (Z.of_nat (length (xw s3)) <? 4)
+              | None => false
+              end
+          | None => false
+          end
+      | None => false
+      end && (final =? 0)
   | CUnstable => true
   end.
 
@@ -121,5 +140,7 @@ Definition prop_ok (c : c12case) : bool :=
       forallb (conn_prop cf) conns && (if documented then peak <=? effConc cf else true)
       && live_prop cf peaklive && zero_obs final
   | CStale _ victim _ _ _ => negb victim     (* a Close made for connection 0 must not close connection 1 *)
+  (* with B still open and the limit 2: exactly one more connection of the address is admitted, the next one gets its 429; zero at the end *)
+  | CGate lim _ _ _ c_served d_rejected final => (if lim =? 2 then c_served && d_rejected else true) && (final =? 0)
   | CUnstable => true
   end.
